@@ -344,6 +344,10 @@ func c07r6(c *core.Ctx) {
 		}
 		core.Instrs(f, func(i ssa.Instruction) {
 			if g := core.Callee(i); g != nil && (core.QualName(g) == "(*bufio.Reader).Reset" || core.QualName(g) == "(*bufio.Reader).Discard") {
+				// the one legitimate Discard: the frame that was just handed to Decrypt (frame-at-a-time read path)
+				if ok, site, _ := frameAtATimeHolds(p); ok && core.QualName(g) == "(*bufio.Reader).Discard" && site != nil && site.Parent() == f && instrDominates(site, i) {
+					return
+				}
 				if core.AnySource(core.CallOf(i).Args[0], func(s ssa.Value) bool {
 					u, ok := s.(*ssa.UnOp)
 					if !ok {
@@ -463,6 +467,7 @@ func c06r6(c *core.Ctx) {
 // ---------------------------------------------------------------- C08 addition
 
 func c08r5(c *core.Ctx) {
+	switchOrderedWithWrites(c)
 	p := c.P
 	// deadline setters of a live connection are not called by library code (only forwarded by Connection's own methods to net/http)
 	n := 0
@@ -1720,6 +1725,14 @@ func handlerErrorHandling(c *core.Ctx) {
 				t, ok := core.ConstInt(core.CallOf(i).Args[0])
 				return ok && t == 7
 			})
+			// the outcome of storing the pairing is looked at: a pairing that could not be stored (an identifier too long for a file
+			// name, a full disk) must not be answered with the success message — the controller believes it is paired and every later
+			// pair-verify is refused as "unknown peer"
+			for _, s := range core.FindCalls(h, func(i ssa.Instruction) bool { return core.IsInvoke(i, qDatabase, "SaveEntity") }) {
+				call, isCall := s.(*ssa.Call)
+				c.Check(isCall && nilTested(call, 4), "save-error-answered@"+fname(h), posOf(s), "the error of SaveEntity is tested",
+					"the error of SaveEntity is discarded in "+fname(h)+": a pairing that cannot be stored is answered with the success message")
+			}
 		}
 	}
 }
@@ -1782,6 +1795,13 @@ func errorTestPolarity(c *core.Ctx, f *ssa.Function, signals func(ssa.Instructio
 		if !fromCall {
 			continue
 		}
+		// a decoding step whose failure only means "keep what we have" (the name of an entity decoded from its key, with the name in
+		// the stored record as the fallback) is not an error of the operation
+		if core.SomeSource(ev, func(s ssa.Value) bool {
+			return core.CallResult(s, 1, func(ci ssa.Instruction) bool { return core.IsCall(ci, "encoding/hex.DecodeString") }) != nil
+		}) {
+			continue
+		}
 		t := &test{iff: iff, ev: ev}
 		if bo.Op == token.EQL {
 			t.failIdx = 1
@@ -1821,6 +1841,17 @@ func errorTestPolarity(c *core.Ctx, f *ssa.Function, signals func(ssa.Instructio
 				}
 				if m+1 < len(pa) {
 					if iff, ok := pa[m].Instrs[len(pa[m].Instrs)-1].(*ssa.If); ok {
+						// "the failed read consumed nothing": n == 0 for the count of the same call — the input ended (or
+						// paused) exactly between two items, which is not a failure of what was read before
+						if bo, ok := iff.Cond.(*ssa.BinOp); ok && (bo.Op == token.EQL || bo.Op == token.NEQ) {
+							for _, pr := range [][2]ssa.Value{{bo.X, bo.Y}, {bo.Y, bo.X}} {
+								if z, isK := core.ConstInt(pr[1]); isK && z == 0 && sameCallCount(pr[0], t.ev) {
+									if (bo.Op == token.EQL && pa[m+1] == pa[m].Succs[0]) || (bo.Op == token.NEQ && pa[m+1] == pa[m].Succs[1]) {
+										endOfInput = true
+									}
+								}
+							}
+						}
 						if bo, ok := iff.Cond.(*ssa.BinOp); ok && bo.Op == token.EQL && (isEOF(bo.X) || isEOF(bo.Y)) && pa[m+1] == pa[m].Succs[0] {
 							endOfInput = true
 						}
@@ -1840,7 +1871,7 @@ func errorTestPolarity(c *core.Ctx, f *ssa.Function, signals func(ssa.Instructio
 					t.silent, t.witness = true, pa
 				}
 			} else if ret != nil && !signalled {
-				if core.IsNilConst(errv) || errv == t.ev || !core.SomeSource(errv, func(s ssa.Value) bool { return core.SomeSource(t.ev, func(e ssa.Value) bool { return e == s }) }) {
+				if core.IsNilConst(errv) || errv == t.ev || res(ret)[nres-1] == t.ev || sameCellUnchanged(pa, k, errv, t.ev) || !core.SomeSource(errv, func(s ssa.Value) bool { return core.SomeSource(t.ev, func(e ssa.Value) bool { return e == s }) }) {
 					t.success = true
 				}
 			}
@@ -2100,4 +2131,39 @@ func calleeLabel(call *ssa.Call) string {
 		return call.Call.Method.Name()
 	}
 	return "dynamic"
+}
+
+// sameCallCount: n is the first result (the byte count) of the call whose last result is the error ev.
+func sameCallCount(n, ev ssa.Value) bool {
+	en, ok := n.(*ssa.Extract)
+	if !ok || en.Index != 0 {
+		return false
+	}
+	for _, s := range core.Sources(ev) {
+		if ee, ok := s.(*ssa.Extract); ok && ee.Tuple == en.Tuple && ee.Index != 0 {
+			return true
+		}
+	}
+	return false
+}
+
+// sameCellUnchanged: a and b are loads of the same local variable (a named result, a variable spilled because of a defer), and the
+// path does not assign the variable from block k on: the value returned is the value that was tested.
+func sameCellUnchanged(pa core.Path, k int, a, b ssa.Value) bool {
+	ua, ok1 := a.(*ssa.UnOp)
+	ub, ok2 := b.(*ssa.UnOp)
+	if !ok1 || !ok2 || ua.Op != token.MUL || ub.Op != token.MUL || ua.X != ub.X {
+		return false
+	}
+	if _, isAlloc := ua.X.(*ssa.Alloc); !isAlloc {
+		return false
+	}
+	for m := k + 1; m < len(pa); m++ {
+		for _, i := range pa[m].Instrs {
+			if st, ok := i.(*ssa.Store); ok && st.Addr == ua.X {
+				return false
+			}
+		}
+	}
+	return true
 }
